@@ -40,6 +40,7 @@ type pgField struct {
 	KeyKind  int    // map key kind, else 0
 	MsgName  string // message type name when Kind==11
 	EnumName string // enum type name when Kind==14
+	Unpacked bool   // repeated numeric field declared [packed = false] (set by harness/c20_any.go only; case label 2)
 }
 
 type pgMsg struct {
@@ -415,6 +416,10 @@ func (s *pgSchema) protoText() string {
 	for _, m := range s.Msgs {
 		fmt.Fprintf(&b, "message %s {\n", m.Name)
 		for _, f := range m.Fields {
+			if f.Unpacked {
+				fmt.Fprintf(&b, "  %s %s = %d [packed = false];\n", f.typeText(), f.Name, f.Num)
+				continue
+			}
 			fmt.Fprintf(&b, "  %s %s = %d;\n", f.typeText(), f.Name, f.Num)
 		}
 		b.WriteString("}\n")
@@ -430,7 +435,11 @@ func (s *pgSchema) caseFields() []string {
 	for _, m := range s.Msgs {
 		out = append(out, fs(m.Name), fi(len(m.Fields)))
 		for _, f := range m.Fields {
-			out = append(out, fi(int(f.Num)), fs(f.Name), fs(f.JSONName), fi(f.Label), fi(f.Kind), fi(f.KeyKind), fs(f.MsgName))
+			label := f.Label
+			if f.Unpacked {
+				label = 2
+			}
+			out = append(out, fi(int(f.Num)), fs(f.Name), fs(f.JSONName), fi(label), fi(f.Kind), fi(f.KeyKind), fs(f.MsgName))
 		}
 	}
 	return out
